@@ -519,7 +519,9 @@ def whole_binary_determinism(ck):
         if not re.search(r"(?m)^\s*random seed:\s*\d+", txt):
             continue
         by_seed = {}
-        for seed in (1, 2):
+        # pairs of seeds that differ in a low bit and in high bits (a seed must reach the generators in full: 31 bits)
+        pairs = [(1, 2)] + ([(42, 42 + (1 << 27)), (42 + (1 << 20), 42), ((1 << 31) - 1, (1 << 27) - 1)] if cfg == "ion.param" else [])
+        for seed in sorted(set(x for pr in pairs for x in pr)):
             w = os.path.join(d, "wbs_%s_%d" % (cfg, seed))
             shutil.rmtree(w, ignore_errors=True)
             os.makedirs(w)
@@ -537,11 +539,13 @@ def whole_binary_determinism(ck):
         if any(v[0] != 0 for v in by_seed.values()):
             ck.breaks.append("whole-binary run %s with another seed exits with %r" % (cfg, [v[0] for v in by_seed.values()]))
             continue
-        nseed += 1
-        if by_seed[1][1] == by_seed[2][1]:
-            ck.violation("C13: one-thread runs of %s with 'random seed: 1' and 'random seed: 2' write identical snapshots (all %d datasets/attributes apart from the recorded parameter): the seed does not reach the generators, "
-                         "so the run does not use the RANLUX stream of its seed" % (cfg, sum(len(v) for v in by_seed[1][1].values())),
-                         {"config": cfg, "seeds": [1, 2]}, key={"kind": "seed_ignored", "config": cfg})
+        nseed += len(pairs)
+        for (sa, sb) in pairs:
+            if by_seed[sa][1] == by_seed[sb][1]:
+                ck.violation("C13: one-thread runs of %s with 'random seed: %d' and 'random seed: %d' write identical snapshots (all %d datasets/attributes apart from the recorded parameter): the seed does not reach the "
+                             "generators in full, so the run does not use the RANLUX stream of its seed" % (cfg, sa, sb, sum(len(v) for v in by_seed[sa][1].values())),
+                             {"config": cfg, "seeds": [sa, sb]}, key={"kind": "seed_ignored", "config": cfg})
+                break
     ck.coverage["whole_binary_seed_pairs"] = nseed
     ck.coverage["whole_binary_objects_compared"] = ncomp
     ck.coverage["whole_binary_configs"] = [c for c, _ in cfgs]
